@@ -160,12 +160,32 @@ struct Runner
     time_t t = static_cast<time_t>(start_ns / 1000000000ull);
     tm d{};
     if (c.gmt) gmtime_r(&t, &d); else localtime_r(&t, &d);
-    if (c.freq == 'M') { d.tm_min += 1; d.tm_sec = 0; }
-    else if (c.freq == 'H') { d.tm_hour += 1; d.tm_min = 0; d.tm_sec = 0; }
+    if (c.freq == 'M' || c.freq == 'H')
+    {
+      // next full minute / hour of the wall clock as it reads at the start instant (offset in force at that instant)
+      long const off = c.gmt ? 0 : d.tm_gmtoff;
+      long const unit = c.freq == 'M' ? 60 : 3600;
+      long long const loc = static_cast<long long>(t) + off;
+      long long const nxt = (loc / unit + 1) * unit - off;
+      return static_cast<uint64_t>(nxt) * 1000000000ull;
+    }
     else { d.tm_hour = atoi(c.daily.substr(0, 2).c_str()); d.tm_min = atoi(c.daily.substr(3, 2).c_str()); d.tm_sec = 0; }
     d.tm_isdst = -1;
     time_t p = c.gmt ? timegm(&d) : mktime(&d);
-    if (p <= t) p += 86400;
+    if (p <= t)
+    {
+      if (c.freq != 'D') p += 86400;
+      else
+      {
+        // the same HH:MM on the next calendar day (not +86400 s: the start day may be 23 or 25 hours long)
+        d.tm_mday += 1; // (mktime normalised d: a nonexistent HH:MM on the start day was moved, so set it again)
+        d.tm_hour = atoi(c.daily.substr(0, 2).c_str());
+        d.tm_min = atoi(c.daily.substr(3, 2).c_str());
+        d.tm_sec = 0;
+        d.tm_isdst = -1;
+        p = c.gmt ? timegm(&d) : mktime(&d);
+      }
+    }
     return static_cast<uint64_t>(p) * 1000000000ull;
   }
   uint64_t period_ns() const
@@ -232,6 +252,7 @@ struct Runner
         else if (x < 15) clock_ns = nextp + 1;                      // one ns after
         else if (x < 17) clock_ns = nextp + r.below(P);             // late in the following period
         else if (x < 18) clock_ns += P * r.range(2, 30) + r.below(P); // gap of many periods
+        else if (x < 19) clock_ns = nextp + P * r.range(1, 6) - (r.chance(1, 4) ? 1 : 0); // silent periods, then exactly on (or 1 ns before) a later point
         else clock_ns += r.below(3);
       }
       else
@@ -467,11 +488,30 @@ struct Runner
         if (!file_of.count(a.id) || !file_of.count(b.id)) continue;
         if (a.instance != b.instance) continue; // a restart re-anchors the schedule at the new start instant
         uint64_t const st = instance_start_ts[a.instance];
+        if (c.freq == 'D' && !c.gmt)
+        {
+          // daily HH:MM in local time is judged only while the zone's offset is the one the schedule was anchored with
+          // (the property does not say whether "HH:MM" or "24 h" wins on a 23/25-hour day)
+          auto off = [](uint64_t ns) { time_t t = static_cast<time_t>(ns / 1000000000ull); tm d{}; localtime_r(&t, &d); return d.tm_gmtoff; };
+          if (off(st) != off(a.ts) || off(st) != off(b.ts)) continue;
+        }
         uint64_t pa = period_index(st, a.ts), pb = period_index(st, b.ts);
         bool same_file = file_of[a.id] == file_of[b.id];
         if (pa != pb && same_file && rotation_always_permitted)
           return fail_c15("statements-across-a-rotation-point-share-a-file",
                           J{}.unum("stmt_a", a.id).unum("ts_a_s", a.ts / 1000000000ull).unum("stmt_b", b.id).unum("ts_b_s", b.ts / 1000000000ull).unum("ts_b_ns", b.ts).unum("instance_start_s", st / 1000000000ull).unum("first_point_s", first_point(st) / 1000000000ull).unum("period_s", period_ns() / 1000000000ull).unum("period_index_a", pa).unum("period_index_b", pb).str("file", file_of[a.id]));
+        if (pa == pb && !same_file && c.limit != 0)
+        {
+          // both rotations configured: a split inside one period must be a size rotation, i.e. the file that a closes
+          // could not take b any more
+          uint64_t bytes_a = 0;
+          bool found = false;
+          for (auto const& f : files)
+            if (f.name == file_of[a.id] && !f.ids.empty() && f.ids.back() == a.id) { bytes_a = f.bytes; found = true; }
+          if (found && bytes_a + b.size <= c.limit)
+            return fail_c15("statements-in-one-period-split-without-size-reason",
+                            J{}.unum("stmt_a", a.id).unum("ts_a_ns", a.ts).unum("stmt_b", b.id).unum("ts_b_ns", b.ts).unum("instance_start_s", st / 1000000000ull).unum("first_point_s", first_point(st) / 1000000000ull).unum("bytes_of_file_closed_after_a", bytes_a).unum("size_b", b.size).unum("limit", c.limit).unum("period_index", pa).str("file_a", file_of[a.id]).str("file_b", file_of[b.id]));
+        }
         if (pa == pb && !same_file && c.limit == 0)
           return fail_c15("statements-without-a-rotation-point-between-them-are-split",
                           J{}.unum("stmt_a", a.id).unum("ts_a_s", a.ts / 1000000000ull).unum("stmt_b", b.id).unum("ts_b_s", b.ts / 1000000000ull).unum("instance_start_s", st / 1000000000ull).unum("first_point_s", first_point(st) / 1000000000ull).unum("period_s", period_ns() / 1000000000ull).unum("period_index", pa).str("file_a", file_of[a.id]).str("file_b", file_of[b.id]));
